@@ -185,7 +185,7 @@ func serPE(r *gen.Rng) fieldpath.PathElement {
 	case 3, 4:
 		n := 1 + r.Intn(2)
 		fl := value.FieldList{}
-		for _, nm := range gen.Shuffle(r, []string{"name", "key", "z\"q", "é"})[:n] {
+		for _, nm := range gen.Shuffle(r, []string{"name", "key", "z\"q", "é", "a<b&c>", "z\u2028", "\u0001n"})[:n] {
 			fl = append(fl, value.Field{Name: nm, Value: value.NewValueInterface(serScalar(r))})
 		}
 		fl.Sort()
@@ -222,6 +222,31 @@ func domSer(r *gen.Rng, n int, thorough bool, o *Out) {
 		k := k
 		op := "ser.depe " + vx.Str(k)
 		o.Emit(op, func() string { return depe(o, op, k) })
+	}
+	// hand-written path-element texts (number grammar, repeated names, nested maps, escapes)
+	wn := 3 * n
+	for i := 0; i < wn; i++ {
+		k := wildPEText(r.Fork(uint64(1_000_000 + i)))
+		op := "ser.depe " + vx.Str(k)
+		o.Emit(op, func() string {
+			res := depe(o, op, k)
+			o.Tag("ser:wild=" + strings.SplitN(res, " ", 2)[0])
+			return res
+		})
+		// a set document with this member: errors and skipped members must agree as well
+		opR := "ser.read " + (&jtree{kind: 'O', members: []jmember{{k, &jtree{kind: 'O'}}, {"f:a", &jtree{kind: 'O'}}}}).enc()
+		o.Emit(opR, func() string {
+			var buf bytes.Buffer
+			(&jtree{kind: 'O', members: []jmember{{k, &jtree{kind: 'O'}}, {"f:a", &jtree{kind: 'O'}}}}).render(&buf)
+			var s fieldpath.Set
+			if err := s.FromJSON(bytes.NewReader(buf.Bytes())); err != nil {
+				return "err"
+			}
+			if !wfSet(&s) {
+				o.Fail("C16", "parsed-set-well-formed", buf.String(), "parsed-set-well-formed "+opR, opR)
+			}
+			return vx.Trie(&s) + " wf=" + vx.Bool(wfSet(&s))
+		})
 	}
 	// equal sets built with different spellings of equal members must serialise identically
 	{
@@ -399,6 +424,69 @@ func domSer(r *gen.Rng, n int, thorough bool, o *Out) {
 		if len(paths) > 1 {
 			o.Nontrivial(opE)
 		}
+	}
+}
+
+// wildPEText writes a serialized path element by hand: number spellings the library never emits
+// (leading zeros, trailing dots, values that need rounding, out-of-range indexes), key objects with
+// repeated / unsorted / oddly escaped names, nested maps with repeated and unsorted members, escaped
+// surrogate pairs, a multi-byte type character. The text contains no raw line breaks.
+func wildPEText(r *gen.Rng) string {
+	num := func() string {
+		return gen.Pick(r, []string{"0", "1", "-1", "01", "-01", "1.", "1.5", "1.50", "-0", "-0.0", "0.5", ".5", "-.5", "-", "+1", "1.5.5", "1-2", "1x", "1e2", "1E2", "1e", "2.25",
+			"9007199254740992", "9007199254740993", "9007199254740994", "-9007199254740993", "4503599627370496.5", "4503599627370497.5", "0.1", "0.125", "123456789012345678901234567890",
+			"9223372036854775807", "9223372036854775808", "-9223372036854775808", "-9223372036854775809", "18446744073709551616", "007", "1_0", "0x10", "1 ", " 1"})
+	}
+	str := func() string {
+		return gen.Pick(r, []string{`"a"`, `"b"`, `""`, `"a<b&c>"`, `"a\u003cb"`, `"\ud83d\ude00"`, `"\ud83d"`, `"\ude00x"`, `"\u00e9"`, `"é"`, `"\u2028"`, "\"\u2028\"", `"\/"`, `"\b\f"`, `"\t\""`, `"\x"`,
+			`"\u12"`, `"a`, `"😀"`, `"\u0000"`, `"key"`, `"name"`})
+	}
+	var val func(d int) string
+	obj := func(d int) string {
+		n := r.Intn(4)
+		parts := []string{}
+		for i := 0; i < n; i++ {
+			k := str()
+			if r.Chance(5) {
+				k = "null"
+			}
+			parts = append(parts, k+":"+val(d-1))
+		}
+		return "{" + strings.Join(parts, ",") + "}"
+	}
+	val = func(d int) string {
+		c := r.Intn(10)
+		switch {
+		case c < 4:
+			return num()
+		case c < 6:
+			return str()
+		case c == 6:
+			return gen.Pick(r, []string{"true", "false", "null", "tru", "nul"})
+		case c == 7 && d > 0:
+			n := r.Intn(3)
+			parts := []string{}
+			for i := 0; i < n; i++ {
+				parts = append(parts, val(d-1))
+			}
+			return "[" + strings.Join(parts, ",") + "]"
+		case d > 0:
+			return obj(d)
+		default:
+			return num()
+		}
+	}
+	switch r.Intn(10) {
+	case 0:
+		return "i:" + num()
+	case 1, 2, 3:
+		return "v:" + val(2)
+	case 4, 5, 6, 7:
+		return "k:" + obj(2)
+	case 8:
+		return gen.Pick(r, []string{"é:x", "é", "日:1", "f:é", "f:", "F:a", "I:1", " f:a", "f :a", "v :1", "k:{} ", "k: {\"a\":1}", "v: 1", "i: 1", "i:1 "})
+	default:
+		return "f:" + gen.Pick(r, serStrings)
 	}
 }
 
